@@ -54,7 +54,7 @@ pub fn configs(prop: &str, thorough: bool) -> Vec<(Cfg, Option<usize>)> {
                         for per in [Per::H(2), Per::T(2 * DT)] {
                             i += 1;
                             // quick: a covering subset (every threshold kind x every weight vector at least once, both contracts)
-                            if !thorough && i % 11 != 0 && !(wn == "w011" && (tn == "pct51" || tn == "q50-33.3" || tn == "count1") && per == Per::H(2)) {
+                            if !thorough && i % 4 != 0 && !(wn == "w011" && (tn == "pct51" || tn == "q50-33.3" || tn == "count1") && per == Per::H(2)) {
                                 continue;
                             }
                             let mut c = Cfg::base(&format!("C03/{}/{wn}/{tn}/{}", if flex { "flex" } else { "fixed" }, if per == Per::H(2) { "height" } else { "time" }), flex);
@@ -153,7 +153,7 @@ pub fn configs(prop: &str, thorough: bool) -> Vec<(Cfg, Option<usize>)> {
                         }
                         for per in [Per::H(2), Per::T(2 * DT)] {
                             k += 1;
-                            if !thorough && !(k % 5 == 1) {
+                            if !thorough && !(k % 2 == 1) {
                                 continue;
                             }
                             // (a) tagged messages, failing receiver, retries
@@ -178,6 +178,32 @@ pub fn configs(prop: &str, thorough: bool) -> Vec<(Cfg, Option<usize>)> {
                         }
                     }
                 }
+            }
+            // (a') Member executor while the group changes: a voter removed from the group may no longer execute
+            for (tn, th) in &ths {
+                if !thorough && *tn != "count2" {
+                    continue;
+                }
+                let mut c = Cfg::base(&format!("C05/flex/{tn}/Member/height/group-changes"), true);
+                c.props = p.clone();
+                c.actors = vec!["A", "B", "Z", "X", "ADM"];
+                c.group_admin = 4;
+                c.voters = vec![(0, 1), (1, 1), (2, 0)];
+                c.th = *th;
+                c.executor = Exec::Member;
+                c.max_props = 1;
+                c.kinds = vec![PK::Tag1];
+                c.votes = vec![VoteA::Yes, VoteA::No];
+                c.proposers = vec![0];
+                c.voters_acting = vec![1, 2];
+                c.executors = vec![0, 1, 2, 3];
+                c.closers = vec![3];
+                c.blocks = 3;
+                c.edits = vec![GroupEdit { remove: vec![1], add: vec![] }, GroupEdit { remove: vec![0], add: vec![(3, 1)] }];
+                c.editors = vec![4];
+                c.max_edits = 2;
+                c.edits_after_proposal = true;
+                out.push((c, None));
             }
             // (b) re-entrancy and nesting, funding
             for flex in [false, true] {
